@@ -703,8 +703,11 @@ def run(ck):
         "object identity of ancestry items modelled as equality of interned ids",
     ]
     ck.notes = [
-        "argument values are opaque: only `is None` matters to the parser; the marshalling of a bound value is "
-        "covered by the byte comparison of envelopes across call styles, not modelled",
+        "argument values are opaque: only `is None` matters to the parser (theorem "
+        "reject_depends_on_definedness_only); the harness supplies None, truthy strings and defined-but-falsy "
+        "objects (0, False, '', 0.0, Decimal(0), {}, empty suds object, [], ()) and presents every defined one to "
+        "the model/spec as `Some id`; the marshalling of a bound value is covered by the byte comparison of "
+        "envelopes across call styles, not modelled",
         "a keyword explicitly given the value None counts as an argument (duplicate/unknown checks) but not as a "
         "value for a choice branch - suds' documented rule",
         "containers' own minOccurs is ignored by suds when counting required arguments; structures in this check "
@@ -1069,7 +1072,10 @@ def run(ck):
         "parse_args driven with mock ancestry objects: every structure with <= 2 parameters nested <= 3 deep "
         "(every optional marking) x every valued subset x every positional/keyword split (+ surplus, unknown, "
         "duplicate, explicit-None and reordered keywords) x extra on/off; %s; sometimes two non-sibling containers "
-        "are the same object. Real clients: %d rendered WSDLs (anonymous/named wrapper type, sequence/all/choice) "
+        "are the same object. VALUES: for <= 2 parameters every vector also with all defined values falsy and with "
+        "both alternating falsy/truthy patterns (9 falsy kinds), elsewhere a seeded 40%% of the defined values falsy; "
+        "real clients repeat every vector (checking on) with a seeded half of the value ids falsy (7 kinds). "
+        "Real clients: %d rendered WSDLs (anonymous/named wrapper type, sequence/all/choice) "
         "x the same vector families x extra on/off, unwrap off via dict / factory object / keyword; rpc literal+"
         "encoded with 1-3 parts. distinct = distinct (structure, args, kwargs, extra); non-trivial = at least two "
         "parameters or a real client"
